@@ -484,6 +484,7 @@ func (r *TableHTMLRenderer) renderTableCell(
 	}
 	if entering {
 		_, _ = fmt.Fprintf(w, "<%s", tag)
+		var attrs gast.Node = n
 		if n.Alignment != ast.AlignNone {
 			amethod := r.TableConfig.TableCellAlignMethod
 			if amethod == TableCellAlignDefault {
@@ -507,14 +508,20 @@ func (r *TableHTMLRenderer) renderTableCell(
 				}
 				style := fmt.Sprintf("text-align:%s", n.Alignment.String())
 				cob.AppendString(style)
-				n.SetAttributeString("style", cob.Bytes())
+				// rendering must not modify the tree: compose the style on a scratch node
+				scratch := ast.NewTableCell()
+				for _, attr := range n.Attributes() {
+					scratch.SetAttribute(attr.Name, attr.Value)
+				}
+				scratch.SetAttributeString("style", cob.Bytes())
+				attrs = scratch
 			}
 		}
-		if n.Attributes() != nil {
+		if attrs.Attributes() != nil {
 			if tag == "td" {
-				html.RenderAttributes(w, n, TableTdCellAttributeFilter) // <td>
+				html.RenderAttributes(w, attrs, TableTdCellAttributeFilter) // <td>
 			} else {
-				html.RenderAttributes(w, n, TableThCellAttributeFilter) // <th>
+				html.RenderAttributes(w, attrs, TableThCellAttributeFilter) // <th>
 			}
 		}
 		_ = w.WriteByte('>')
